@@ -71,13 +71,26 @@ class Check:
         return o
 
     def prove(self, name, hyps, goal, timeout=30, meta=None):
+        hyps = list(hyps)
+        hyps = hyps + core.closure(hyps + [goal])
         return self.add(Obligation(name, hyps, goal, timeout=timeout, meta=meta))
 
     def decided(self, name, ok, detail='', meta=None, model=None):
         return self.add(decided(name, ok, detail, meta, model))
 
+    def solve_now(self, o, register=True):
+        """Discharge one obligation immediately (staged contracts: later obligations depend on the verdict)."""
+        o.name = f'{self.pid}/{o.name}' if not o.name.startswith(self.pid + '/') else o.name
+        o.hyps = o.hyps + core.closure(o.hyps + [o.goal])
+        solve.discharge([o])
+        if register:
+            self.obls.append(o)
+        return o.status
+
     def canary(self, name, hyps, timeout=20):
         """requires => False must be REFUTED (otherwise the preconditions are contradictory)."""
+        hyps = list(hyps)
+        hyps = hyps + core.closure(hyps)
         o = Obligation(name + '/canary', hyps, z3.BoolVal(False), kind='canary', timeout=timeout)
         return self.add(o)
 
@@ -99,15 +112,20 @@ class Check:
 
     # ---- run ---------------------------------------------------------------------------------------------
     def finish(self):
-        log = (lambda o: None)
+        only = os.environ.get('VF_ONLY')
+        if only:
+            self.obls = [o for o in self.obls if re.search(only, o.name)]
+            print(f'VF_ONLY: {len(self.obls)} obligations selected (debug run, verdict not valid)')
+        verbose = os.environ.get('VF_VERBOSE')
+        log = (lambda o: print(f'  {o.status:10s} {o.seconds:7.2f}s {o.backend or "-":6s} {o.name}', flush=True)) if verbose else (lambda o: None)
         solve.discharge(self.obls, log=log)
         # retry undecided with triple budget (verdicts must not flip under load)
-        retry = [o for o in self.obls if o.status == 'undecided' and o.kind != 'decided']
+        retry = [o for o in self.obls if o.status == 'undecided' and o.kind != 'decided' and not o.meta.get('no_retry')]
         for o in retry:
             o.status = None
             o.timeout = o.timeout * 3
         if retry:
-            solve.discharge(self.obls)
+            solve.discharge(self.obls, log=log)
         # canaries: must be refuted
         for o in self.obls:
             if o.kind == 'canary':
@@ -145,7 +163,8 @@ class Check:
                     print(f"KNOWN-FINDING: property={self.pid} {kf['what']}")
                     printed_known.add(kf['id'])
                 continue
-            groups.setdefault(re.sub(r'\[[^\]]*\]', '', o.name), []).append(o)
+            key = '/'.join(o.name.split('/')[:3]) if o.meta.get('bounded') else re.sub(r'\[[^\]]*\]', '', o.name)
+            groups.setdefault(key, []).append(o)
         for key, os_ in groups.items():
             # one VIOLATION line per failed (function, clause); the cases are listed in the replay file.
             path, reproduced, o = None, False, os_[0]
